@@ -12,6 +12,8 @@ from ..affine import ge
 ID = "C02"
 ANCHORS = 'ersatz.shuffle,ersatz.dinucleotide_shuffle,ersatz._dinucleotide_shuffle,ersatz._fast_shuffle'.split(",")
 MIN_INSTANCES = 14
+# rule families whose findings in this module are derived by an engine (not by comparing spellings): exempt from the rewrite gate
+SEMANTIC_RULES = {"MUST-VALIDATE", "R-PURE"}
 EXPLANATION = (
     "REGION: in ersatz.shuffle the slice that is overwritten and the slice that is gathered from are the same linear forms "
     "[start, end) of the unmodified input, proved inside [0, L] from the guards (including the negative-`end` normalisation), "
